@@ -112,6 +112,13 @@ func GlobalMoransI(data, weights []float64, locality mat.Matrix) (i, v, z float6
 	//  http://pro.arcgis.com/en/pro-app/tool-reference/spatial-statistics/h-global-morans-i-additional-math.htm
 	var s0, s1, s2 float64
 	var var2, var4 float64
+	// A RowNonZeroDoer does not visit w_ji when w_ij is zero; rows holds the
+	// visited part of each row's sum of w_ij+w_ji and missed the rest.
+	var rows, missed []float64
+	if isDoer {
+		rows = make([]float64, len(data))
+		missed = make([]float64, len(data))
+	}
 	for i, v := range data {
 		v -= mean
 		v *= v
@@ -129,7 +136,12 @@ func GlobalMoransI(data, weights []float64, locality mat.Matrix) (i, v, z float6
 				s1 += v * v
 
 				p2 += v
+				if wji == 0 {
+					s1 += v * v
+					missed[j] += v
+				}
 			})
+			rows[i] = p2
 		} else {
 			for j := range data {
 				wij := locality.At(i, j)
@@ -144,6 +156,9 @@ func GlobalMoransI(data, weights []float64, locality mat.Matrix) (i, v, z float6
 			}
 		}
 		s2 += p2 * p2
+	}
+	for i, m := range missed {
+		s2 += m * (2*rows[i] + m)
 	}
 	s1 *= 0.5
 
